@@ -2,6 +2,7 @@
 // Oracles: O(n^2) long-double inverse DFT and the original signal (round trip); for STFT the accumulated window weight
 // is recomputed here in long double and carries the a-priori error bound of DESIGN section 4 (C02).
 #include "kit/num.h"
+#include "kit/prelude.h"
 #include <dsplib.h>
 
 using namespace vk;
